@@ -68,6 +68,13 @@ func DecodeSidx(hdr BoxHeader, startPos uint64, r io.Reader) (Box, error) {
 
 // DecodeSidxSR - box-specific decode
 func DecodeSidxSR(hdr BoxHeader, startPos uint64, sr bits.SliceReader) (Box, error) {
+	// consume bytes after the last reference that the box size covers, so that they are not parsed as following boxes
+	payloadEnd := sr.GetPos() + hdr.payloadLen()
+	defer func() {
+		if rest := payloadEnd - sr.GetPos(); rest > 0 {
+			sr.SkipBytes(rest)
+		}
+	}()
 	versionAndFlags := sr.ReadUint32()
 	version := byte(versionAndFlags >> 24)
 
